@@ -23,3 +23,21 @@ def depth(o: 'Ref[Documentable]') -> 'Int':
 def under(k: 'Str', root: 'Str') -> 'Bool':
     """k names root or something inside it"""
     return k == root or k.startswith(root + '.')
+
+
+@opaque
+@reads('name', 'parent', 'contents', '_localNameToFullName_map', 'allobjects', 'rootobjects')
+def found(system: 'Ref[System]', full_name: 'Str') -> 'RefN[Documentable]':
+    """what System.find_object returns for the name when it does not raise"""
+    return system.find_object(full_name)
+
+
+@opaque
+@reads('name', 'parent', 'contents', '_localNameToFullName_map', 'allobjects', 'rootobjects')
+def lookup_fails(system: 'Ref[System]', full_name: 'Str') -> 'Bool':
+    """System.find_object raises LookupError for the name (the root is one of ours, the rest is unknown)"""
+    try:
+        system.find_object(full_name)
+    except LookupError:
+        return True
+    return False
